@@ -711,6 +711,9 @@ func (p *Parser) parseSelectStatement() (ast.Statement, error) {
 					// Parse join condition
 					cond, err := p.parseExpression()
 					if err != nil {
+						if isPropagatedError(err) {
+							return nil, err
+						}
 						return nil, goerrors.InvalidSyntaxError(
 							fmt.Sprintf("error parsing ON condition for %s JOIN: %v", joinType, err),
 							p.currentLocation(),
@@ -1156,6 +1159,9 @@ func (p *Parser) parseSelectWithSetOperations() (ast.Statement, error) {
 
 		rightStmt, err := p.parseSelectStatement()
 		if err != nil {
+			if isPropagatedError(err) {
+				return nil, err
+			}
 			return nil, goerrors.InvalidSetOperationError(
 				operationLiteral,
 				fmt.Sprintf("error parsing right SELECT: %v", err),
